@@ -168,10 +168,18 @@ def check_assembly(case, ctx):
         size = ass.get_size()
         for p in plist:
             p.nx, p.ny = nx, ny
+        if case.get('kt_first'):
+            # the tangent is the very first quantity asked of the assembly (before k0 / fint / the connection matrix)
+            size0 = ass.get_size()
+            KT_first = dense(ass.calc_kT(c=np.zeros(size0), silent=True))
         K0 = dense(ass.calc_k0(silent=True))
         Kc = dense(ass.get_k0_conn())
     ctx.nontrivial = True
-    ctx.label('panels:%d' % len(plist), *['conn:' + c['func'] for c in case['conn']])
+    ctx.label('panels:%d' % len(plist), 'kT-first' if case.get('kt_first') else 'k0-first', *['conn:' + c['func'] for c in case['conn']])
+    if case.get('kt_first') and nx >= 8 and ny >= 8:
+        ctx.close('kT(0) asked first == k0', KT_first, K0, 1e-9, bucket=name + '.kT(0)')
+    ctx.close('k0.symmetry', K0, K0.T, 1e-12, bucket=name + '.k0.symmetry')
+    ctx.close('k0_conn.symmetry', Kc, Kc.T, 1e-12, bucket=name + '.k0_conn.symmetry', scale=np.max(np.abs(Kc)) or 1.)
     # state
     c = np.zeros(size)
     refs = []
@@ -278,7 +286,8 @@ def _assembly_strategy(draw, tier='quick'):
         conn.append({'p1': k, 'p2': k + 1, 'func': func, 'pos1': draw(st.sampled_from([0., 1., 0.5, 0.3])),
                      'pos2': draw(st.sampled_from([0., 1.]))})
     return {'panels': panels, 'conn': conn, 'order': list(range(npan)), 'state': draw(_state_dict()),
-            'nx': draw(st.integers(7, 10)), 'ny': draw(st.integers(7, 10)), 'dirseed': draw(st.integers(0, 2 ** 20))}
+            'nx': draw(st.integers(7, 10)), 'ny': draw(st.integers(7, 10)), 'dirseed': draw(st.integers(0, 2 ** 20)),
+            'kt_first': draw(st.booleans())}
 
 
 SUBS = [
